@@ -259,3 +259,36 @@ def reindexable_impls(F):
     if n == 0:
         raise CheckError("no impl of ReIndexable found")
     return r
+
+
+def tag_utils_siblings(F):
+    """R-TAG-UTILS: every `impl TagUtils` hands out the tag that is already there (creating an empty one only when there is
+    none): `get_or_create_tag` uses a get-or-insert on its tag slot.  An `insert` / assignment / `take` replaces what earlier
+    `append_to_tag` calls have written — the side-effect report then carries the last piece only."""
+    from vlib.facts import peel
+    r = RuleResult("R-TAG-UTILS",
+                   "every TagUtils::get_or_create_tag returns the existing tag when there is one (get_or_insert_default / get_or_insert_with on its tag slot); none overwrites the slot")
+    n = 0
+    for f in F.fns:
+        if f.get("body") is None or f["name"] != "get_or_create_tag" or not (f.get("impl_trait") or "").endswith("TagUtils"):
+            continue
+        n += 1
+        r.analysed.append(f["path"])
+        ops = set()
+        for x in walk(f["body"]):
+            if x.get("k") == "MethodCall" and (x.get("callee") or "").startswith(("std::", "core::")) and (place_path(x["recv"]) or "").endswith("tag"):
+                ops.add(x["method"])
+            if x.get("k") == "Assign" and (place_path(x["lhs"]) or "").endswith("tag"):
+                ops.add("=")
+        if not ops:
+            r.ob(True, {"impl": f["path"], "delegates": True})
+            continue
+        bad = sorted(ops - {"get_or_insert_default", "get_or_insert_with", "get_or_insert", "as_mut", "is_none", "is_some", "unwrap", "expect"})
+        r.ob(not bad, {"impl": f["path"], "tag slot operations": sorted(ops)})
+        if bad:
+            r.violate("%s | overwrites tag (%s)" % (f["path"], "+".join(bad)), F.loc(f),
+                      "%s::get_or_create_tag uses `%s` on its tag slot: an existing tag is replaced by an empty one each time, so data appended earlier is lost from the side-effect report" % ((f.get("self_adt") or "").split("::")[-1], bad[0]))
+    r.count("tag_utils_impls", n)
+    if n == 0:
+        raise CheckError("no impl of TagUtils::get_or_create_tag found")
+    return r
